@@ -10,7 +10,7 @@ import (
 
 func init() {
 	Register("C15", "Decides three structural necessary conditions of 'what follows never moves the boundary' for the schema scanner's Len(): (boundary) once the root value is complete (state stateEndTop, empty lexeme stack, no annotation open, length mode) every byte other than a blank, `/` and `#` emits the EndTop lexeme and nothing else; (stop) Length() stops reading at the EndTop lexeme; (arith) the candidate length is End()+1 after a lexeme and End() or End()-1 at EndTop (the lexeme lies on the first trailing byte; the property only speaks of trailing text on a new line, so at least one blank precedes it), after which exactly SP, TAB, LF, CR are dropped from the end. (pairing) every dedicated callee of the return-to-step stack (escape, comment states) leaves by a pop, so the scanner is back in stateEndTop when the root value and its annotation end. Does NOT decide prefix acceptance, idempotence of Len on the prefix, equality of ASTs, nor the values of the lexeme positions.",
-		c15boundary, c15stop, c15arith, c15lineend, pairingRule("C15.pairing", []string{"notations/jschema/scanner"}))
+		c15boundary, c15stop, c15arith, c15newline, c15lineend, pairingRule("C15.pairing", []string{"notations/jschema/scanner"}))
 }
 
 func c15boundary(c *core.Ctx) {
@@ -140,4 +140,42 @@ func c15lineend(c *core.Ctx) {
 	if n == 0 {
 		c.Bad(R, "states", "-", "pipe-accepting states", "undecided: no state accepts `|` as a separator")
 	}
+}
+
+// c15newline: a line end is not part of the schema.
+func c15newline(c *core.Ctx) {
+	const R = "C15.newline"
+	c.Rule(R, "in (*Scanner).Length the NewLine lexeme does not move the candidate length (the loop continues before the assignment when lex.Type() == lexeme.NewLine), and at the EndTop lexeme the length is left where the last lexeme of the schema put it. A user comment after the root value emits no lexeme, so a length that follows NewLine/EndTop positions jumps behind the comment as soon as a line end or more text follows it (Len(\"1 # c\") = 1 but Len(\"1 # c\\nx\") = 11)")
+	c.Floor(R, 1)
+	d := c.P.FindDecl("(*notations/jschema/scanner.Scanner).Length")
+	if d == nil {
+		c.Unresolved(R, "(*notations/jschema/scanner.Scanner).Length")
+		return
+	}
+	skipNL := false
+	endTopAssigns := false
+	ast.Inspect(d.Decl.Body, func(n ast.Node) bool {
+		ifs, ok := n.(*ast.IfStmt)
+		if !ok {
+			return true
+		}
+		cond := core.ExprStr(ifs.Cond)
+		if strings.Contains(cond, "lexeme.NewLine") && strings.Contains(cond, "==") {
+			for _, st := range ifs.Body.List {
+				if b, ok := st.(*ast.BranchStmt); ok && b.Tok == token.CONTINUE {
+					skipNL = true
+				}
+			}
+		}
+		if strings.Contains(cond, "lexeme.EndTop") {
+			ast.Inspect(ifs.Body, func(m ast.Node) bool {
+				if as, ok := m.(*ast.AssignStmt); ok && len(as.Lhs) == 1 && core.ExprStr(as.Lhs[0]) == "length" {
+					endTopAssigns = true
+				}
+				return true
+			})
+		}
+		return true
+	})
+	c.Check(skipNL && !endTopAssigns, R, "Length:newline", c.P.Pos(d.Decl.Pos()), "NewLine and EndTop lexemes do not move the length", core.F("the length follows positions outside the schema's own lexemes (NewLine skipped: %v, assignment at EndTop: %v): a trailing comment is inside or outside the measured schema depending on what follows", skipNL, endTopAssigns))
 }
